@@ -466,7 +466,10 @@ def run(tier: str) -> Run:
         w, out, c1, c2, stage1, stage2 = seqs['near-first']
         val = w.val()
         for label, dq_val, base_frame, base_polys, base_d in (('between the choppers', 4, 1, stage1, c1.attrs['distance'].term),
-                                                              ('beyond the last chopper', 8, 2, stage2, c2.attrs['distance'].term)):
+                                                              ('beyond the last chopper', 8, 2, stage2, c2.attrs['distance'].term),
+                                                              # exactly at a chopper: the neutrons there have passed it (the last frame not beyond)
+                                                              ('at the second chopper', 6, 2, stage2, c2.attrs['distance'].term),
+                                                              ('at the first chopper', 3, 1, stage1, c1.attrs['distance'].term)):
             dq = w.scalar('dq_' + label.split()[0], M, dq_val)
             kind, fr = w.call(gfi, [dq], bound=out)
             want = [clip.shear(p_, dq.term - base_d, alpha()) for p_ in base_polys]
